@@ -38,6 +38,7 @@ WORK = V.BUILD / "work" / CID
 BUDGET = 4000000
 MAX_CERT_IN_BITS = 7          # 3^7 input vectors per product state; wider designs: interpreter replay only
 KNOWN_CASE = "mux-undefined-selector-case-others"
+KNOWN_SHIFT_LIT = "shift-literal-operand"     # honoured only if KNOWN_FINDINGS.txt lists it (reported to main, see corpus/*.pending)
 
 
 # ---------------------------------------------------------------------------------------------
@@ -109,6 +110,23 @@ def gen_all(seed, tier):
 # ---------------------------------------------------------------------------------------------
 # per-design analysis (python side)
 # ---------------------------------------------------------------------------------------------
+def coq_closure(root):
+    import re
+    seen, todo = set(), [root]
+    while todo:
+        n = todo.pop()
+        f = V.COQ / "Gatery" / (n + ".v")
+        if n in seen or not f.exists():
+            continue
+        seen.add(n)
+        txt = re.sub(r"\(\*.*?\*\)", "", f.read_text(), flags=re.S)
+        for m in re.finditer(r"From\s+Gatery\s+Require\s+(?:Import|Export)?\s*([^.]*)\.", txt):
+            todo += m.group(1).split()
+        for m in re.finditer(r"Require\s+(?:Import|Export)\s+Gatery\.(\w+)", txt):
+            todo.append(m.group(1))
+    return {n + ".v" for n in seen}
+
+
 def vhdl_files(ddir):
     fl = ddir / "files.txt"
     if not fl.exists():
@@ -218,9 +236,13 @@ def main():
         sys.exit(0)
     res = V.check_properties(CID)
     rep.add_proof(res)
-    forb = V.scan_forbidden()
+    # forbidden constructs (Admitted/admit/Axiom...) in the files Properties_C02.v transitively depends on; an admitted
+    # lemma anywhere in that closure would additionally show up under Print Assumptions
+    forb = [h for h in V.scan_forbidden() if h.split(":")[0] in coq_closure("Properties_C02")]
     known, _ = V.known_findings(CID)
     known_case_listed = any(k.startswith(KNOWN_CASE) for k in known)
+    known_shift_lit_listed = any(k.startswith(KNOWN_SHIFT_LIT) for k in known)
+    known_shift_lit = []
 
     designs = load_corpus()
     replay_stim = None
@@ -405,6 +427,10 @@ def main():
         if reason is None or any(v.get("design") == did for v in violations):
             continue
         disagreements += 1
+        if known_shift_lit_listed and ("shift_left on slv" in reason or "shift_right on slv" in reason) and \
+                any(("SHIFT_LEFT(\"" in l or "SHIFT_RIGHT(\"" in l) for f in vhdl_files(WORK / ("run_" + mode) / did) for l in open(f, errors="replace")):
+            known_shift_lit.append((did, mode))
+            continue
         found = None
         if len([v for v in violations if v.get("searched")]) < 4:
             try:
@@ -525,6 +551,8 @@ def main():
             violations.insert(0, dict(kind="VHDL is less defined than the reference simulation: CASE .. WHEN OTHERS => X under an undefined mux selector",
                                       design=did, mode=mode, program=prog[did], stimulus=circ.stim_of(circ.parse_traces(WORK / ("run_" + mode) / f"{did}.trace")[m["trace"]]),
                                       failing=m, vhdl=excerpt(WORK / ("run_" + mode), did, "CASE")))
+    if known_shift_lit:
+        rep.known(f"{KNOWN_SHIFT_LIT} ({len(known_shift_lit)} exports this run, e.g. {known_shift_lit[0][0]}: SHIFT_x(\"literal\", ..) inside a type conversion is ambiguous)")
     seen = 0
     for v in violations:
         if seen >= 6:
